@@ -49,8 +49,10 @@ func randomTail(b *builder, nops int, withL1 bool) {
 			} else {
 				b.store(nil)
 			}
-		case x < 13:
+		case x < 12:
 			b.revert()
+		case x < 13:
+			b.rejected()
 		case x < 15:
 			if withL1 {
 				b.l1head()
@@ -206,8 +208,10 @@ func boundaryScenario(k scenKey, graceful, directed bool, nops int) *Scenario {
 		switch x := r.Intn(20); {
 		case h <= w-2 || (x < 9 && h < w+3):
 			b.store(eventfulSpec(g, r, ""))
-		case x < 15 || h >= w+3:
+		case x < 14 || h >= w+3:
 			b.revert()
+		case x < 15:
+			b.rejected()
 		case x < 16:
 			b.simple("snap")
 		case x < 18:
